@@ -57,6 +57,8 @@ def run_login(tid, stages, final, sync, reset, extra=None, h=None):
     try:
         r = p.login(*who, **opts)
         ret = 'True' if r is True else repr(r)
+    except fakessh.LoginHung:
+        ret = 'hung'                 # judged by the clause on the configured timeouts (elapsed is far beyond the bound)
     except pexpect.ExceptionPexpect as e:
         ret = 'raise_' + ('Pxssh' if isinstance(e, pxssh.ExceptionPxssh) else type(e).__name__)
         exc_ok = True
